@@ -10,7 +10,8 @@ from mirsym.parser import Unsupported
 from mirsym.values import Adt, clone_val, PyVec, Some, NONE
 from mirsym.models.core import val_eq, z_and, z_all, z_any, z_not
 from .common import get_interp, show, Scheduler
-from .cloudworld import CloudWorld, Then, replay_scenario, replay_judge, validate_samples  # noqa: F401
+from . import cloudworld as _cw
+from .cloudworld import CloudWorld, Then, ServiceHandle
 
 PROPERTY = 'C09'
 REPLAY_RETRIES = 2
@@ -43,15 +44,18 @@ PROGRAMS = ['add', 'add-add', 'walk', 'add-snap']
 
 
 class Harness:
-    def __init__(self, nclients, programs, prechain, name, page_size=100):
+    def __init__(self, nclients, programs, prechain, name, page_size=100, init_race=False):
         self.I = get_interp()
         self.nclients, self.programs, self.prechain, self.name, self.page_size = nclients, programs, prechain, name, page_size
+        # init_race: the clients open the (empty, salt-less) store inside the race: CloudServer::new, with its salt
+        # requests, is the first step of every program
+        self.init_race = init_race
 
     def run_path(self, ctx):
         c, I = ctx, self.I
         w = CloudWorld(I, ctx, self.page_size, concrete_now=2_000_000_000)
         I.env['rand_byte'] = lambda I2, n, i: 200 if n == 1 else None      # no cleanup, urgency None (cleanup races: C10)
-        servers = [w.new_server(k)[0] for k in range(self.nclients)]
+        servers = [None] * self.nclients if self.init_race else [w.new_server(k)[0] for k in range(self.nclients)]
         accepted = []         # (parent, id, payload, client) for every Ok reported
         submitted = {}        # id(payload list) -> payload, by parent for byte comparison
         returned = []         # versions handed out by get_child_version: (parent, id, bytes)
@@ -69,6 +73,8 @@ class Harness:
             kind = self.programs[c.choose(len(self.programs), 'program')]
             kinds.append(kind)
             progs.append(self.mk_program(w, servers[k], k, kind, l0, accepted, returned))
+        if self.init_race:
+            c.cover('clients open an empty store concurrently')
         sched = Scheduler(I, ctx, clients=list(range(self.nclients)))
         sched.READS = ('get', 'list')
         w.begin_race()
@@ -78,12 +84,17 @@ class Harness:
             c.cover('two clients adding on the same parent')
 
         def wit(m):
+            if self.init_race:
+                return {'engine_judged': True, 'programs': ['open + ' + k for k in kinds], 'schedule': [(t, lab) for t, lab in sched.trace],
+                        'accepted': show([(a[0], a[1], a[3]) for a in accepted], m)}
             scn, pred = w.record(m)
             return {'programs': kinds, 'schedule': [(t, lab) for t, lab in sched.trace], 'accepted': show([(a[0], a[1], a[3]) for a in accepted], m),
                     'cloud': {'scenario': scn, 'predicted': pred}}
         # --- every request of every program succeeded at the protocol level
         for k, res in enumerate(results):
             for r in res:
+                if r is None:
+                    continue
                 if r.variant != 0:
                     c.prove(False, 'a server call returned Err under concurrency', wit, {'class': 'err', 'err': repr(r)[:160]})
                     return None
@@ -151,22 +162,38 @@ class Harness:
         if c.want_sample:
             out['schedule'] = [t for t, _ in sched.trace]
             m = c.get_model()
-            if m is not None:
+            if m is not None and not self.init_race:
                 out['scenario'], out['predicted'] = w.record(m)
             out['_encoded'] = sorted(I.encoded)
             out['_modelled'] = sorted(I.modelled)
         return out
 
-    def mk_program(self, w, srv, k, kind, l0, accepted, returned):
+    def mk_program(self, w, srv0, k, kind, l0, accepted, returned):
         I = self.I
+        holder = {'srv': srv0}
+
+        class _S:
+            """the client's server value at the time a step runs (created by the program's first step in init_race mode)"""
+        srv = None
+
+        def open_store(results):
+            h = ServiceHandle(w, w.store, k)
+            fut = I.call('CloudServer::new', [h, clone_val(w.secret)])
+
+            def opened(r):
+                if r.variant == 0:
+                    holder['srv'] = r.fields[0]
+                    w.servers[k] = (r.fields[0], h)
+                return None          # not a Server-trait result
+            return Then(fut, opened)
 
         def add(parent_of):
             def step(results):
                 parent = parent_of(results)
-                if parent is None:
+                if parent is None or holder['srv'] is None:
                     return None
                 pl = w.payload(1)
-                fut = w.f_add_version(srv, parent, clone_val(pl))
+                fut = w.f_add_version(holder['srv'], parent, clone_val(pl))
                 return Then(fut, lambda r: record_add(r, parent, pl))
             return step
 
@@ -182,7 +209,9 @@ class Harness:
                 parent = parent_of(results)
                 if parent is None:
                     return None
-                fut = w.f_get_child_version(srv, parent)
+                if holder['srv'] is None:
+                    return None
+                fut = w.f_get_child_version(holder['srv'], parent)
                 return Then(fut, lambda r: record_get(r))
             return step
 
@@ -194,7 +223,7 @@ class Harness:
 
         def last_ok_id(results):
             for r in reversed(results):
-                if is_add_result(r):
+                if r is not None and is_add_result(r):
                     res = r.fields[0].fields[0]
                     if res.variant == 0:
                         return res.fields[0]
@@ -202,7 +231,7 @@ class Harness:
 
         def last_child(results):
             for r in reversed(results):
-                if r.variant == 0 and isinstance(r.fields[0], Adt) and r.fields[0].name == 'GetVersionResult' and r.fields[0].variant == 1:
+                if r is not None and r.variant == 0 and isinstance(r.fields[0], Adt) and r.fields[0].name == 'GetVersionResult' and r.fields[0].variant == 1:
                     return r.fields[0].fields[0]
             return None
         if kind == 'add':
@@ -216,17 +245,35 @@ class Harness:
                 vid = last_ok_id(results)
                 if vid is None:
                     return None
-                return w.f_add_snapshot(srv, vid, w.payload(1))
+                return w.f_add_snapshot(holder['srv'], vid, w.payload(1))
             steps = [add(lambda rs: l0), snap]
+        if self.init_race:
+            steps = [open_store] + steps
         return Program(I, steps)
 
 
+def replay_scenario(v):
+    if v['witness'].get('engine_judged'):
+        return {'kind': 'noop'}
+    return _cw.replay_scenario(v)
+
+
+def replay_judge(scn, out, v):
+    if v['witness'].get('engine_judged'):
+        return True, {'note': 'judged by the engine: a CloudServer::new that races inside a schedule is not expressible in the replay scenario format'}
+    return _cw.replay_judge(scn, out, v)
+
+
+def validate_samples(s, out):
+    return _cw.validate_samples(s, out)
+
+
 def is_add_result(r):
-    return r.variant == 0 and isinstance(r.fields[0], Adt) and r.fields[0].name == 'tuple' and len(r.fields[0].fields) == 2
+    return r is not None and r.variant == 0 and isinstance(r.fields[0], Adt) and r.fields[0].name == 'tuple' and len(r.fields[0].fields) == 2
 
 
 def required_covers(tier):
-    return ['two clients adding on the same parent', 'several accepted versions', 'a racing add_version was rejected']
+    return ['two clients adding on the same parent', 'several accepted versions', 'a racing add_version was rejected', 'clients open an empty store concurrently']
 
 
 def configs(tier):
@@ -234,7 +281,9 @@ def configs(tier):
         return [dict(name='2clients', factory=lambda: Harness(2, ['add', 'walk', 'add-snap'], 1, 'q'),
                      bounds='2 clients, each one program out of {add_version; walk two child versions; add_version then add_snapshot} starting from a chain of 0-1 versions; every interleaving of their Service requests'),
                 dict(name='3clients', factory=lambda: Harness(3, ['add', 'walk'], 0, 'q3'),
-                     bounds='3 clients, each add_version or a walk of two child versions, empty store; every interleaving')]
+                     bounds='3 clients, each add_version or a walk of two child versions, empty store; every interleaving'),
+                dict(name='init-race', factory=lambda: Harness(2, ['add', 'walk'], 0, 'qi', init_race=True),
+                     bounds='2 clients that first open the empty, salt-less store (CloudServer::new: salt read, compare-and-swap, re-read) and then add_version or walk; every interleaving of all Service requests incl. the salt requests; violations of this configuration are judged by the engine')]
     return [dict(name='2clients-all', factory=lambda: Harness(2, PROGRAMS, 1, 't'), bounds='2 clients, all four programs incl. two consecutive add_versions', time_limit_s=3300),
             dict(name='2clients-page1', factory=lambda: Harness(2, ['add', 'walk'], 1, 'p1', page_size=1), bounds='list page size 1: every page fetch is a scheduling point', time_limit_s=3300),
             dict(name='3clients', factory=lambda: Harness(3, ['add', 'walk'], 0, 't3'), bounds='3 clients, add_version or walk', time_limit_s=3300)]
@@ -243,6 +292,7 @@ def configs(tier):
 ASSUMPTIONS = [
     'interleaving granularity = one Service request (get / put / del / compare_and_swap / list page); the model store executes each request atomically, compare_and_swap included (the Service contract)',
     'cleanup is disabled here (its races are C10); snapshot urgency draw fixed; ring primitives idealised; version ids fresh, distinct, symbolic order',
+    'init-race configuration: CloudServer::new inside the schedule cannot be expressed in the replay scenario format; its counterexamples are judged by the engine and its paths are not sampled for replay',
     'replay: programs and schedule are run on the compiled CloudServer over the gated hook store; confirmed when results, request log and store equal the prediction (ids up to renaming)',
 ]
 EXPLANATION = ('programs forked, schedules forked exhaustively (sleep sets over get/list), ids and payload bytes symbolic; after every '
